@@ -23,7 +23,7 @@ mkdir -p "$BIN"
 if [ "${1:-}" = replay ] && [ -n "${2:-}" ]; then REPLAY_FILE="$(realpath "$2")"; fi
 cd "$ROOT/harness" || exit 2
 [ "$REPO" = /repo ] && cp /repo/ociregistry/go.sum go.sum 2>/dev/null
-SCHED_IDS=" C16 C08 C19 C10 C11 "
+SCHED_IDS=" C16 C08 C19 C10 C11 C14 "
 build() {
   go build $MODFLAG -tags verif -o "$BIN/vcheck" ./cmd/vcheck || { echo "harness build failed" >&2; exit 2; }
 }
